@@ -94,7 +94,7 @@ func setupActors(w *srv.World, r *core.RNG, n int) (*actors, error) {
 	if ob := w.Register(a.GCA.Pub, sig, "setup"); !strings.Contains(ob, "Accepted") {
 		return nil, fmt.Errorf("setup registration refused")
 	}
-	caps := []uint64{1000, 5000, 1 << 20, 0, 100, 1 << 62, (1 << 64 - 1) / 135}
+	caps := []uint64{1000, 5000, 1 << 20, 0, 100, 1 << 62, (1<<64 - 1) / 135}
 	for i := 0; i < n; i++ {
 		d := &device{ID: uint32(10 + i*7 + r.Intn(5)), K: srv.DetKey(r), Cap: caps[r.Intn(len(caps))]}
 		if i == 0 {
